@@ -294,15 +294,12 @@ func (w *World) VerifyFunc(key string) *Unit {
 	var props []string
 	if sp != nil {
 		for _, un := range sp.Uses {
-			found := false
-			for _, l := range w.Lemmas {
-				if l.Name == un {
-					vc.fact(w.lemmaStatement(vc, l))
-					vc.Assumed["lemma used (proved separately): "+un] = true
-					found = true
-				}
-			}
-			if !found {
+			uenv := fr.specEnvAt(st, nil)
+			uenv.old = st
+			if stmt, name, ok := w.useLemma(vc, uenv, un); ok {
+				vc.fact(stmt)
+				vc.Assumed["lemma used (proved separately): "+name] = true
+			} else {
 				vc.outside("uses unknown lemma %s", un)
 			}
 		}
@@ -474,17 +471,12 @@ func (w *World) VerifyLemma(l *spec.Lemma) *Unit {
 		env.names[v.Name] = Val{T: t, Sort: sortIfSpec(t, srt), Term: vc.declareConst("lv_"+v.Name, srt)}
 	}
 	for _, un := range l.Uses {
-		var used *spec.Lemma
-		for _, o := range w.Lemmas {
-			if o.Name == un {
-				used = o
-			}
-		}
-		if used == nil {
+		stmt, _, ok := w.useLemma(vc, env, un)
+		if !ok {
 			vc.outside("lemma %s uses unknown lemma %s", l.Name, un)
 			continue
 		}
-		vc.fact(w.lemmaStatement(vc, used))
+		vc.fact(stmt)
 	}
 	if l.Induction != "" {
 		// natural induction on an int variable k (the other variables stay fixed): P(k) := hyps(k) ==> concl(k).
@@ -617,6 +609,59 @@ func (w *World) UnitKeys() []string {
 
 // Finish completes a VC after generation (axioms).
 func (w *World) Finish(vc *VC) { w.addAxioms(vc) }
+
+// useLemma compiles one `uses` reference in env: the universally quantified statement for a bare name, the statement
+// with the lemma's variables replaced by the given expressions for name(e1, ..., en).
+func (w *World) useLemma(vc *VC, env *SpecEnv, ref string) (string, string, bool) {
+	name, args := ref, ""
+	if i := strings.Index(ref, "("); i > 0 && strings.HasSuffix(ref, ")") {
+		name, args = ref[:i], ref[i+1:len(ref)-1]
+	}
+	var used *spec.Lemma
+	for _, o := range w.Lemmas {
+		if o.Name == name {
+			used = o
+		}
+	}
+	if used == nil {
+		return "", name, false
+	}
+	if args == "" && !strings.Contains(ref, "(") {
+		return w.lemmaStatement(vc, used), name, true
+	}
+	ce, err := spec.ParseExpr("f(" + args + ")")
+	call, ok := ce.(*spec.Call)
+	if err != nil || !ok || len(call.Args) != len(used.Vars) {
+		vc.outside("uses %s: wants %d arguments", ref, len(used.Vars))
+		return "", name, false
+	}
+	conj := func(cs []*spec.Clause) spec.Expr {
+		var e spec.Expr = &spec.BoolLit{Val: true}
+		for i, c := range cs {
+			if i == 0 {
+				e = c.Expr
+			} else {
+				e = &spec.Binary{Op: "&&", L: e, R: c.Expr}
+			}
+		}
+		return e
+	}
+	var body spec.Expr = conj(used.Concl)
+	if len(used.Hyps) > 0 {
+		body = &spec.Binary{Op: "==>", L: conj(used.Hyps), R: body}
+	}
+	if used.Induction != "" {
+		body = &spec.Binary{Op: "==>", L: &spec.Binary{Op: ">=", L: &spec.Ident{Name: used.Induction}, R: &spec.IntLit{Val: "0"}}, R: body}
+	}
+	// simultaneous substitution through fresh intermediate names (arguments may mention the lemma's variable names)
+	for i, v := range used.Vars {
+		body = spec.Subst(body, v.Name, &spec.Ident{Name: fmt.Sprintf("$use%d", i)})
+	}
+	for i := range used.Vars {
+		body = spec.Subst(body, fmt.Sprintf("$use%d", i), call.Args[i])
+	}
+	return env.compileBool(body), name, true
+}
 
 // lemmaStatement returns the universally quantified statement of a lemma.
 func (w *World) lemmaStatement(vc *VC, l *spec.Lemma) string {
